@@ -134,7 +134,7 @@ def r2_lifting(run, tree):
                         "v.reshape reshapes every component")
     check_component_map(run, tree, tree.method(vi, "__getitem__"), VECTOR + ".__getitem__",
                         lambda e, v, pn: isinstance(e, ast.Subscript) and is_name(e.value, v) and is_name(e.slice, pn[1]),
-                        "v[idx] indexes every component with idx", need_name=True)
+                        "v[idx] indexes every component with idx")
     # numpy dispatch: every branch iterates over all components
     fi = tree.method(vi, "_wrap_numpy")
     run.analysed(fi)
